@@ -16,7 +16,7 @@ the same ops run through `zvbi_model trig`; outputs are diffed (a fault predicte
 report of the real code and vice versa) and the real code's outputs are judged by lib/trig_util.judge."""
 import os, re, subprocess, sys
 sys.path.insert(0, os.path.join(os.path.dirname(os.path.abspath(__file__)), "..", "lib"))
-import verif, decgen, trig_util, nav_util
+import verif, decgen, trig_util, nav_util, c01lang_gen
 import ttxenc as T
 
 # flat walks over a whole 2-D member array (never leave the array object): not findings (DESIGN.md 4b)
@@ -49,7 +49,7 @@ def _addr_only(report):
 class C01(verif.Spec):
     prop = "C01"
     comp = "dec"
-    lean_modules = ["ZvbiModel.Props.C01", "ZvbiModel.Props.C01Ttx", "ZvbiModel.Props.C01Enh", "ZvbiModel.Props.C01Seq", "ZvbiModel.Props.C01Cells", "ZvbiModel.Props.C01Nav", "ZvbiModel.Props.C01Trig"]
+    lean_modules = ["ZvbiModel.Props.C01", "ZvbiModel.Props.C01Ttx", "ZvbiModel.Props.C01Enh", "ZvbiModel.Props.C01Seq", "ZvbiModel.Props.C01Cells", "ZvbiModel.Props.C01Nav", "ZvbiModel.Props.C01Trig", "ZvbiModel.Props.C01Lang", "ZvbiModel.Props.C01Link", "ZvbiModel.Props.C01Gfx"]
     harness = "dec_harness"
     timeout_per_case = 20.0
     partial_note = ("proved: the enumerated safety obligations on the component models (Props/C01.lean recursion bound, "
@@ -74,9 +74,19 @@ class C01(verif.Spec):
                     "script[] for any byte string, terminate within strlen + 2 iterations, accept a checksum attribute only when it "
                     "verifies, trigger list allocations balanced over all histories, itv_buf index <= 255 - for the source forms "
                     "with fixes/C01-trig-*.diff; on the original forms five counterexample theorems + replays); "
-                    "sanitizer-exercised only: exporters (html, vtx, png, xpm, ppm), ure.c regex engine, conv.c/iconv, "
+                    "Props/C01Lang.lean: every value stored in ttx_page_stat.charset_code is 0xFF or a valid index of vbi_font_descriptors[] for every history, "
+                    "X/28 / M/29 designation and national option, vbi_classify_page / cache_network_get_ttx_page_stat read inside the table (shape of page_language and "
+                    "every reader / writer regenerated by translate/gen_c01lang.py; counterexamples for the raw-fallback shape of seeded C01-k); "
+                    "Props/C01Link.lean: vbi_resolve_link's buffer loop and both keyword() calls for every row content / column, vbi_resolve_home, vbi_page_title + "
+                    "ait_title index bounds and reference balance (translate/gen_c01link.py); "
+                    "Props/C01Gfx.lean: the renderer's index arithmetic over page data - DRCS plane `(unicode >> 6) & 0x1F` < 32, every byte draw_drcs reads inside "
+                    "drcs.chars[48][60] for glyph < 48 (which enhance() guarantees: tied to Props/C01Cells), every byte draw_char reads inside wstfont2_bits for every "
+                    "unicode / italic / size (unicode_wstfont2 < 1536), every pen element and canvas byte of vbi_draw_vt_page_region's cell loop for arbitrary cells, "
+                    "vbi_teletext_composed_unicode's table search and its enhance() caller (translate/gen_c01gfx.py); "
+                    "sanitizer-exercised only: exporters (html, vtx, png, xpm, ppm: their canvas allocation and row loops; draw_row_indexed has only the cell theorem), "
+                    "the caption renderer (ccfont2), exp-txt.c print_char / vbi_print_page_region, ure.c regex engine, conv.c/iconv, "
                     "the attribute VALUES merged by enhance_flush (addresses are proved), DRCS look-up references and pg->drcs[] lifetime (F6), "
-                    "the label TEXT of the TOP navigation bar and vbi_resolve_link's own buffer loop (cell positions / keyword are proved), MIP/MPT parsers beyond their index bounds, the Teletext trigger page path of "
+                    "the label TEXT of the TOP navigation bar (cell positions / keyword are proved), MIP/MPT parsers beyond their index bounds, the Teletext trigger page path of "
                     "packet.c (eacem_trigger: only its extent is a theorem)")
     assumptions = ["malloc does not fail", "callers pass buffers / canvases of the documented size"]
     trusted_base = ["harness/dec_harness.c + lean/Driver/Dec.lean (every well-formed op must return `ok`)",
@@ -98,12 +108,33 @@ class C01(verif.Spec):
                     "harness/trig_harness.c + lean/Driver/Trig.lean; translate/gen_trig.py (regex extraction of limits / table counts / "
                     "code forms from trigger.c, caption.c, packet.c plus a digest of the remaining function text; C probe for the "
                     "extents); vbi->time restricted to whole seconds in the trig stream (frame arithmetic then exact); TZ=UTC; "
-                    "uninitialised heap modelled as the harness allocator's 0xAA fill"]
+                    "uninitialised heap modelled as the harness allocator's 0xAA fill",
+                    "translate/gen_c01lang.py (whole-body match of page_language against two shapes, regexes for the macro and for every reader / writer of "
+                    "ttx_page_stat.charset_code with an occurrence count per file, C probe #including lang.c for the font table); ext->charset_code[0] is never negative "
+                    "(unsigned, written by get_bits (7) / a guarded default region)",
+                    "translate/gen_c01link.py (skeleton digest + ordered literals of vbi_resolve_link / vbi_resolve_home / ait_title / vbi_page_title, C probe for extents); "
+                    "lean/ZvbiModel/Nav/Link.lean follows the pinned skeletons by hand",
+                    "translate/gen_c01gfx.py (regex full-match of the draw_drcs case blocks, clip_size, draw_blank, vbi_teletext_composed_unicode, the four DRCS call "
+                    "sites, rowstride / row_adv, vbi_is_drcs, the enhance() DRCS unicode formula and composed call; SHA-1 skeleton digest + literal count for "
+                    "unicode_wstfont2 and draw_char; gcc probe #including lang.c, wstfont2.xbm, vt.h, cache-priv.h for extents / enum values / composed[]); the reading of "
+                    "each recognised loop shape in lean/ZvbiModel/Gfx/Model.lean is hand-written and not differentially checked (no driver / harness for this stage)"]
     open_statements = ["whole-library memory safety for all inputs (only the enumerated obligations are theorems)",
-                       "vbi_resolve_link: its own row-to-buffer loop (j = b = -1 restarts) and the second keyword() call at b + 1 are not modelled "
-                       "(keyword_in_range covers the callee for columns 1 .. len of a well-formed buffer; sanitizer-exercised by the `resolve` op)",
+                       "vbi_resolve_link row-24 branch: `0 <= pg->nav_index[column] < 6` is a hypothesis of resolve_link_entry_in_range (proved: flof_navigation_bar, "
+                       "flof_links and top_label store only such values - nav_index_values_in_range; not proved: a set link flag in row 24 implies one of these stores "
+                       "ran for that column; the TOP index page 0x900 runs zap_links on row 24 without touching nav_index[], safe by reading because top_index leaves "
+                       "row 24 blank); the pointer `&pg->text[row * EXT_COLUMNS]` formed for any caller row before the guards is not dereferenced (proved), the pointer "
+                       "arithmetic itself is outside the model",
+                       "ait_title: that font[0] is a font vbi_teletext_unicode handles is taken from Props/C01Nav format_fonts_valid / C01Cells charset_designation_in_range, "
+                       "not re-proved; the TEXT written to buf is not specified; vbi_resolve_link / vbi_resolve_home / vbi_page_title have no correspondence stream of their "
+                       "own (model pinned by skeleton digest + literals, translate/gen_c01link.py; exercised under ASan by the `resolve` / `title` ops of the dec stream)",
                        "TOP navigation in the nav correspondence stream (top_label / top_navigation_bar cell positions and nav stores are theorems; the "
-                       "executable comparison covers Level 1 + zap_links + FLOF only - TOP bars are exercised by the dec stream under ASan)",
+                       "executable comparison covers Level 1 + zap_links + FLOF only - the nav harness still fabricates no BTT / AIT cache pages; TOP bars are exercised by "
+                       "the dec stream under ASan)",
+                       "renderer (Props/C01Gfx): draw_row_indexed (exporters, PAL8 pen[128]) has no row / page-level theorem and the exporters' canvas allocation and XPM / PNG row "
+                       "loops are not modelled (the cell theorem applies with canvas_type = 1); the caption renderer (draw_char with ccfont2) and exp-txt.c print_char / "
+                       "vbi_print_page_region are not modelled; `drcs_clut_offs + 15 < 64` is a hypothesis on the vbi_page (no library code stores the field; a caller-built "
+                       "page with drcs_clut_offs >= 49 reads pen[64]: drcs_pen_offset_counterexample); the OVER_TOP / OVER_BOTTOM and underline skips are not modelled (the model "
+                       "logs a superset of the reads); no correspondence stream for the Gfx model (translator-pinned shapes only)",
                        "attribute VALUES of the Level 1 loop (C02 owns their round trip); termination of the Level 1 row loop is structural (row strictly "
                        "increases below display_rows <= 25; the access theorem holds for every iteration bound)",
                        "trigger round trip for all well-formed triggers (sender = lib/trig_util.Trig; checked by the oracle on "
@@ -177,6 +208,14 @@ class C01(verif.Spec):
                     ops += decgen.query_ops(rng, net)
             ops.append("delete")
             cases.append(ops)
+        # round "C01lang": subtitle pages (BTT / MIP) whose X/28 / M/29 designate undefined character sets (88 .. 127, holes), then
+        # classify (lib/c01lang_gen.py).  Appended, with a generator of its own: the cases above stay what they were.
+        import random as _r
+        r3 = _r.Random(repr(rng.getstate()[1][:16]))     # a function of the seed; does not consume from the main stream
+        for i in range(40 if tier == "quick" else 400):
+            c = c01lang_gen.gen_case(r3) + ["delete"]
+            cases.append(c)
+            self._kind[hash("\n".join(c))] = "subtitle-language"
         return cases
 
     _kind = {}
